@@ -737,6 +737,8 @@ class Filtration(PoupoolActor):
             valve.on()
         else:
             valve.off()
+        # The (internal) reload transition cancelled the timer, restart the polling
+        self.do_delay(self.STATE_REFRESH_DELAY, self.do_repeat_comfort.__name__)
 
     def do_repeat_comfort(self):
         self.__eco_mode.update(datetime.now(), 0.5)
